@@ -67,6 +67,17 @@ func (t *tStructProto) structPack(m erpc.Message) error {
 	} else if bodyCodec != codec.ID_THRIFT {
 		return errors.New("body codec must be thrift")
 	}
+	// check the body before anything is written into the (buffered) transport
+	var s thrift.TStruct
+	if m.Body() == nil {
+		// e.g. a reply that only carries an error status
+		s = codec.NewThriftEmpty()
+	} else if ts, ok := m.Body().(thrift.TStruct); ok {
+		s = ts
+	} else {
+		return fmt.Errorf("thrift codec: %T does not implement thrift.TStruct", m.Body())
+	}
+
 	t.packLock.Lock()
 	defer t.packLock.Unlock()
 	t.rwCounter.WriteCounter.Zero()
@@ -76,10 +87,6 @@ func (t *tStructProto) structPack(m erpc.Message) error {
 		return err
 	}
 
-	s, ok := m.Body().(thrift.TStruct)
-	if !ok {
-		return fmt.Errorf("thrift codec: %T does not implement thrift.TStruct", m.Body())
-	}
 	if err = s.Write(t.wProtocol); err != nil {
 		return err
 	}
